@@ -239,6 +239,7 @@ type c14Case struct {
 	GoMaxProcs int      `json:"gomaxprocs"`
 	Rounds     int      `json:"rounds_per_caller"`
 	Seed       int64    `json:"seed"`
+	Sweeps     bool     `json:"cache_sweeps_during_run"`
 }
 
 type c14Result struct {
@@ -363,6 +364,10 @@ func c14Eval(r *hx.Run, cs c14Case) {
 			for k := 0; k < cs.Rounds; k++ {
 				q := cs.Questions[int(uint64(cs.Seed+int64(c*31+k*17))%uint64(len(cs.Questions)))]
 				res := c14Ask(fg, q)
+				if cs.Sweeps && (c+k)%3 == 0 {
+					// a cache sweep in the middle of the run: nothing is old enough to go
+					fg.CleanCache()
+				}
 				mu.Lock()
 				results = append(results, res)
 				mu.Unlock()
@@ -522,6 +527,47 @@ func c14Window(events []c14Event, key string) []c14Event {
 	return out
 }
 
+// random operation sequences on the real queryCache (clock under our control) against the Lean cache model
+func c14CacheOps(r *hx.Run) {
+	rr := r.Rng
+	maxStale := int64(hx.Pick(rr, []int{50, 100, 1000}))
+	vc := promapi.VerifNewCache(time.Duration(maxStale), time.Unix(0, 0).UTC())
+	var ops, outs []string
+	for i, n := 0, 5+rr.Intn(40); i < n; i++ {
+		k := uint64(rr.Intn(4))
+		switch rr.Intn(7) {
+		case 0, 1:
+			v, ttl := rr.Intn(100), hx.Pick(rr, []int{0, 0, 10, 60, 200})
+			vc.Set(k, v, time.Duration(ttl))
+			ops = append(ops, fmt.Sprintf("s:%d:%d:%d", k, v, ttl))
+		case 2, 3:
+			v, ok := vc.Get(k)
+			ops = append(ops, fmt.Sprintf("g:%d", k))
+			if ok {
+				outs = append(outs, fmt.Sprintf("h%d", v.(int)))
+			} else {
+				outs = append(outs, "m")
+			}
+		case 4, 5:
+			d := hx.Pick(rr, []int{1, 5, 10, 30, 49, 50, 51, 99, 100, 101})
+			vc.Advance(time.Duration(d))
+			ops = append(ops, fmt.Sprintf("a:%d", d))
+		case 6:
+			vc.GC()
+			ks := vc.Keys()
+			sort.Slice(ks, func(i, j int) bool { return ks[i] < ks[j] })
+			var kk []string
+			for _, k := range ks {
+				kk = append(kk, fmt.Sprint(k))
+			}
+			ops = append(ops, "c")
+			outs = append(outs, "["+strings.Join(kk, ",")+"]e"+fmt.Sprint(vc.Evictions()))
+		}
+	}
+	r.Op(fmt.Sprintf("cacheops\t%d\t%s", maxStale, strings.Join(ops, " ")), strings.Join(outs, " "))
+	r.Count("cache-op-sequences")
+}
+
 func runC14(r *hx.Run, replay string) {
 	if replay != "" {
 		b, err := os.ReadFile(replay)
@@ -543,7 +589,7 @@ func runC14(r *hx.Run, replay string) {
 	rr := r.Rng
 	exprs := []string{"up", "sum(foo)", "count(bar) by (job)"}
 	for i := 0; i < r.N; i++ {
-		cs := c14Case{Workers: 1 + rr.Intn(8), Callers: 2 + rr.Intn(30), DelayMs: hx.Pick(rr, []int{0, 0, 2, 5}), GoMaxProcs: hx.Pick(rr, []int{1, 2, 4, 16}), Rounds: 1 + rr.Intn(3), Seed: rr.Int63n(1 << 30)}
+		cs := c14Case{Workers: 1 + rr.Intn(8), Callers: 2 + rr.Intn(30), DelayMs: hx.Pick(rr, []int{0, 0, 2, 5}), GoMaxProcs: hx.Pick(rr, []int{1, 2, 4, 16}), Rounds: 1 + rr.Intn(3), Seed: rr.Int63n(1 << 30), Sweeps: rr.Intn(2) == 0}
 		if rr.Intn(3) == 0 {
 			cs.ErrEvery = 2 + rr.Intn(3)
 		}
@@ -583,6 +629,9 @@ func runC14(r *hx.Run, replay string) {
 		}
 		cs.Questions = keep
 		c14Eval(r, cs)
+		for k := 0; k < 5; k++ {
+			c14CacheOps(r)
+		}
 		if i%10 == 0 {
 			// the same expression under two lookbacks: the slices coincide, the lock keys do not
 			cs2 := c14Case{Workers: 4, Callers: 8, DelayMs: 5, GoMaxProcs: 4, Rounds: 1, Seed: rr.Int63n(1 << 30),
